@@ -51,6 +51,10 @@ class FileSystemLoader(BaseLoader):
         """
         template_path = Path(template_name)
 
+        # An absolute name would replace the search path when joined to it.
+        if template_path.is_absolute():
+            raise TemplateNotFoundError(template_name)
+
         if self.ext and not template_path.suffix:
             template_path = template_path.with_suffix(self.ext)
 
